@@ -56,7 +56,7 @@ def _required(tier):
         "plans_accepted", "plans_rejected_before_yield", "blocks_yielded", "regime:lastread<skipback", "regime:gulp>nsamps",
         "regime:block_crosses_file_boundary", "regime:partial_last_block_before_eof", "regime:gulp_not_dividing",
         "regime:start>0", "regime:skipback>gulp/2", "regime:skipback>=gulp", "overlap_audits", "spy:creadinto", "spy:seek",
-        "regime:continuation_plans_on_one_reader", "regime:packed_block_over_1KiB_odd_byte_count", "regime:names_held_another_geometry_of_equal_size", "regime:plan_abandoned_before_the_next",
+        "regime:continuation_plans_on_one_reader", "regime:packed_block_over_1KiB_odd_byte_count", "regime:names_held_another_geometry_of_equal_size", "regime:plan_abandoned_before_the_next", "regime:names_held_a_file_with_another_header_length", "consumer_overwrites_yielded_block", "plans_from_a_worker_thread",
     ]
 
 
@@ -114,6 +114,10 @@ def cases(tier, seed):
         split = [N] if nfiles == 1 else [N // 2, N - N // 2]
         yield {"cfg": {"N": N, "nbits": nbits, "nchans": nch, "split": split}, "dseed": int(seed) + 800 + k, "chain": True, "alloc": "default",
                "plans": [(g, st, min(seg, N - st), sb if g > sb else 0) for st in range(0, N, seg)]}
+    for k in range(3 if tier == "quick" else 30):
+        nbits = int(rng.choice(DEPTHS))
+        Nt = int(rng.integers(20, 200))
+        yield {"cfg": {"N": Nt, "nbits": nbits, "nchans": sigfile.legal_nchans(nbits, int(rng.integers(1, 17))), "split": [Nt // 2, Nt - Nt // 2]}, "dseed": int(seed) + 900 + k, "threaded": True, "plans": []}
     # --- random plans on larger streams
     nrand = 60 if tier == "quick" else 1500
     for k in range(nrand):
@@ -218,6 +222,14 @@ def _files(ctx, cfg, dseed):
             f0 = FilReader(old_paths if len(old_paths) > 1 else old_paths[0])
             f0.read_block(0, 1)
             ctx.count("regime:names_held_another_geometry_of_equal_size")
+        if dseed % 3 == 1:
+            # ... or a file set with longer headers (another source name) and other samples, written by something else than the library
+            from sigpyproc.readers import FilReader
+
+            old_paths = sigfile.write_split(d, make_data(cfg, dseed + 2), cfg["nbits"], cfg["split"], source_name="J1234-5678_drift_scan_field_" * 3)
+            f0 = FilReader(old_paths if len(old_paths) > 1 else old_paths[0])
+            f0.read_block(0, 1)
+            ctx.count("regime:names_held_a_file_with_another_header_length")
         paths = sigfile.write_split(d, X, cfg["nbits"], cfg["split"])
         cache[key] = (X, paths)
     return cache[key]
@@ -305,9 +317,38 @@ def _two_readers(case, ctx, cfg, fil, Xf):
     ctx.nontrivial_case({"two_readers": True, "cfg": cfg, "dseed": case["dseed"]})
 
 
+def _threaded(case, ctx, cfg, fil, Xf):
+    """A plan driven from a worker thread with the documented defaults (no description given): the calling context is not part of the request."""
+    import threading
+
+    N = cfg["N"]
+    out = {}
+
+    def work():
+        try:
+            out["blocks"] = [(int(n_), np.array(d_, dtype=np.float64, copy=True)) for n_, _, d_ in fil.read_plan(gulp=max(1, N // 3), start=1, nsamps=N - 1, skipback=0, quiet=True)]
+        except BaseException as exc:  # noqa: BLE001
+            out["err"] = exc
+
+    th = threading.Thread(target=work)
+    th.start(); th.join()
+    ctx.evaluated(); ctx.count("plans_from_a_worker_thread")
+    one = {"cfg": cfg, "dseed": case["dseed"], "plans": [], "threaded": True}
+    if "err" in out:
+        ctx.violation(f"plan-raised-in-worker-thread:{type(out['err']).__name__}@{exc_site(out['err'])}", f"read_plan(gulp, start=1, nsamps=N-1, quiet=True) started from a worker thread raised {fmt_exc(out['err'])}", one)
+        return
+    got = np.concatenate([b for _, b in out["blocks"]]) if out["blocks"] else np.zeros(0)
+    if got.size != (N - 1) * cfg["nchans"] or not np.array_equal(got, Xf[1:].ravel()):
+        ctx.violation("stream-mismatch-values:worker-thread", "blocks delivered to a worker thread differ from the stream", one)
+    else:
+        ctx.nontrivial_case(one)
+
+
 def _run_plans(case, ctx, cfg, fil, Xf):
     if case.get("two_readers"):
         return _two_readers(case, ctx, cfg, fil, Xf)
+    if case.get("threaded"):
+        return _threaded(case, ctx, cfg, fil, Xf)
     if fil.header.nsamples != cfg["N"]:
         ctx.violation("reader-nsamples", f"reader infers {fil.header.nsamples} samples, file set holds {cfg['N']}", case)
         return
@@ -373,6 +414,13 @@ def check_plan(ctx, fil, Xf, cfg, bounds, gulp, start, nsamps, skipback, alloc, 
         kw = {"allocator": alloc} if alloc is not None else {}
         for nsamps_r, ii, data in fil.read_plan(gulp=gulp, start=start, nsamps=nsamps, skipback=skipback, quiet=True, description="verif", **kw):
             blocks.append((int(nsamps_r), int(ii), np.array(data, dtype=np.float64, copy=True)))
+            if (gulp + start + skipback) % 3 == 0:
+                # a consumer that uses the yielded block as scratch space (as the library's own masking does): the next block still comes from the file
+                try:
+                    np.asarray(data)[...] = 0
+                    ctx.count("consumer_overwrites_yielded_block")
+                except (ValueError, TypeError):
+                    pass
     except Exception as exc:  # noqa: BLE001
         err = exc
     trace = list(_spy["reads"])
